@@ -2,7 +2,7 @@
    Property theorems only; each is closed by a lemma of Proofs/C09*.v.
    The model (Model/C09Model.v) is parametric in the variant of the code; [fixedv] is the
    repository with the four "fix:" commits of branch agent-c09, [origv] the unchanged tree. *)
-From GP Require Import Base C09Model C09Spec C09Seq C09Proofs.
+From GP Require Import Base C09Model C09Spec C09Seq C09Proofs C09Stream.
 Open Scope Z_scope.
 
 (* ------------------------------------------------------------------ (i) C09_seq *)
@@ -228,3 +228,42 @@ Print Assumptions C09_wrap_original_refuted.
 Print Assumptions C09_fin_limit_original_refuted.
 Print Assumptions C09_keepfrom_original_refuted.
 Print Assumptions C09_late_syn_original_refuted.
+
+(* ------------------------------------------------------------------ C09_stream_partial *)
+
+(* The part of C09_stream_statement that is proved, for every stream shorter than 2^30 - 1,
+   every ISN (so: wherever the sequence numbers lie, across the wrap included), and every
+   history that starts with the SYN and continues with consistent segments in any order, with
+   any duplicates, overlapping retransmissions, repeated SYNs, FIN or RST — without page limit,
+   KeepFrom script or flush: the run does not stop (no panic), the bytes handed to the stream as
+   new data are exactly S[0, pos) in order — nothing duplicated, reordered, altered or
+   invented —, and every ScatterGather has skip 0 and no saved bytes; no ReassemblyComplete.
+   Missing for the full statement: delivery beyond a gap (flushes, page limits: skips), the
+   start-never-seen regime (SYN late or absent), kept bytes (KeepFrom), completion at FlushAll,
+   and that pos reaches the contiguous frontier of what was received (progress). *)
+Theorem C09_stream_partial : forall S i n0 ts0 hs,
+  zlen S < 1073741823 -> 0 <= n0 <= zlen S ->
+  forallb seg_hop hs = true -> forallb (hop_okb S) hs = true ->
+  let tr := run_hist fixedv S i (HSyn n0 ts0 :: hs) in
+  length tr = length (HSyn n0 ts0 :: hs) /\
+  exists pos, n0 <= pos <= zlen S /\ delivered tr = sub S 0 pos /\ Forall (fun x => ev_clean (fst x)) tr.
+Proof. exact stream_partial. Qed.
+Print Assumptions C09_stream_partial.
+
+(* the invariant behind it, one operation at a time: a consistent segment moves the delivery
+   point from pos to pos' >= pos and hands over exactly S[pos, pos') *)
+Theorem C09_stream_step : forall S i pos st h,
+  zlen S < 1073741823 -> inv S i pos st -> seg_hop h = true -> hop_okb S h = true ->
+  exists st' ev pos', step fixedv st (op_of S i h) = (st', ev, false) /\
+    pos <= pos' /\ inv S i pos' st' /\ ev_new ev = sub S pos (pos' - pos) /\ ev_clean ev.
+Proof. exact step_hop. Qed.
+Print Assumptions C09_stream_step.
+
+(* non-vacuity: ISN 2^32-3, a stream of 10 bytes crossing the wrap, segments out of order with a
+   duplicate, an overlap swallowing a queued page, a repeated SYN and a FIN: everything delivered *)
+Example C09_stream_partial_nonvacuous :
+  let hs := [HData 6 2 false false 2; HData 2 2 false false 3; HData 8 2 true false 4; HData 2 2 false false 5;
+             HData 5 4 false false 6; HSyn 2 7; HData 0 6 false false 8] in
+  forallb seg_hop hs = true /\ forallb (hop_okb w_S) hs = true /\
+  delivered (run_hist fixedv w_S 4294967293 (HSyn 2 1 :: hs)) = w_S.
+Proof. vm_compute. repeat split; reflexivity. Qed.
